@@ -36,6 +36,10 @@ def _run(ctx, replay):
         scen = [{"id": "push-%d-%d" % (seed, i), "scripts": h} for i, h in enumerate(hs)]
         # the lower clamp of the adaptive window (Push.tla: w > Dec ? w - Dec : 1) matters exactly at
         # w = k * Dec: k fast successes alone put the window at 1 + k, then one message fails repeatedly
+        # every status next to the success set {200, 201, 202, 204} explicitly, once each (the scripted
+        # classes above only cycle through the code ranges)
+        edge = ["code203", "code205", "code206", "code207", "code208", "code226", "code300", "code304", "code400", "code599"]
+        scen.append({"id": "edge-%d" % seed, "scripts": [[c] for c in edge]})
         for k in ([8, 9, 10, 19] if tier == "quick" else list(range(0, 31)) + [39, 49]):
             scen.append({"id": "window-%d-%d" % (seed, k), "scripts": [[]] * k + [["fail5", "fail4", "fail5"]], "phases": ([k] if k else []) + [1]})
     sp = os.path.join(ctx.scratch, "scen.ndjson")
